@@ -12,7 +12,7 @@ from . import coq
 THEOREMS = ["gen_hush_quote_is_the_model", "gen_blacklists_are_the_model", "gen_prompts_are_the_model",
             "gen_probe_and_sanity_are_the_model", "gen_probe_loop_is_the_model", "gen_init_lines_are_the_model", "gen_channel_constants_are_the_model",
             "gen_board_constants_are_the_model", "gen_sanitize_is_the_model",
-            "gen_write_bytes_constants_are_the_model", "gen_status_command_is_the_model", "gen_env_lines_are_the_model", "gen_ssh_argv_is_the_model", "gen_scp_argv_is_the_model", "gen_ub_env_is_the_model"]
+            "gen_write_bytes_constants_are_the_model", "gen_status_command_is_the_model", "gen_env_lines_are_the_model", "gen_ssh_argv_is_the_model", "gen_scp_argv_is_the_model", "gen_ub_env_is_the_model", "gen_exec0_and_test_are_the_model"]
 
 
 def obligations(only=None):
